@@ -474,6 +474,8 @@ func (m *Machine) Exec(st Step) (ev Event) {
 	callable := m.ok[st.A]
 	if st.Op == "DropLevel" {
 		callable = callable && st.K <= m.regs[st.A].Level()
+	} else if st.Op == "SetScale" {
+		// in place on register A
 	} else {
 		if st.B.K == "ct" {
 			callable = callable && m.ok[st.B.R]
@@ -517,6 +519,15 @@ func (m *Machine) Exec(st Step) (ev Event) {
 	if st.Op == "DropLevel" {
 		written = st.A
 		ev.Res = m.view(m.regs[st.A], true)
+	} else if st.Op == "SetScale" {
+		written = st.A
+		if ev.Err || ev.Panic {
+			m.ok[st.A] = false
+			m.regs[st.A] = ckks.NewCiphertext(m.p, 1, m.p.MaxLevel())
+			ev.Res = m.view(nil, false)
+		} else {
+			ev.Res = m.view(m.regs[st.A], true)
+		}
 	} else if ev.Err || ev.Panic {
 		m.ok[st.O] = false
 		m.regs[st.O] = ckks.NewCiphertext(m.p, 1, m.p.MaxLevel())
@@ -607,6 +618,8 @@ func (m *Machine) call(st Step, a *rlwe.Ciphertext, b interface{}, out **rlwe.Ci
 	case "DropLevel":
 		ev.DropLevel(a, st.K)
 		return nil
+	case "SetScale":
+		return ev.SetScale(a, m.p.DefaultScale().Mul(rlwe.NewScale(uint64(1)<<uint(st.K))))
 	}
 	return fmt.Errorf("unknown op %q", st.Op)
 }
